@@ -38,11 +38,27 @@ def r_zchar(spec):
 
 def r_defaultpad(spec):
     n = [0]
+    if any(k.startswith('FixedStringPad') for k in spec.options):
+        return spec              # the built-in default is not this program's default: see r_configpad
 
     def fn(f):
         if f.kind == 'fixed' and not f.z and f.pad is None:
             n[0] += 1
             return f.clone(pad=('right', "' '" if n[0] % 2 else None))
+        return f
+    return walk_fields(spec, fn, nested=False)
+
+
+def r_configpad(spec):
+    """'default padding versus none' under an options block that configures the default: the configured padding written out"""
+    side = 'left' if spec.options.get('FixedStringPadFromLeft') == 'true' else 'right'
+    ch = spec.options.get('FixedStringPadChar')
+    if ch is None and side == 'right':
+        return spec
+
+    def fn(f):
+        if f.kind == 'fixed' and not f.z and f.pad is None:
+            return f.clone(pad=(side, ch or "' '"))
         return f
     return walk_fields(spec, fn, nested=False)
 
@@ -92,7 +108,7 @@ def r_docs(spec):
     return walk_fields(spec, lambda f: f.clone(doc=None if f.doc else 'documentation of %s (was zchar[8] left repeat match u8 100%% {{x}})' % f.name) if f.kind in ('basic', 'fixed', 'dyn', 'lengthof', 'checksum', 'obj') else f)
 
 
-SPEC_REWRITES = [('alias', r_alias), ('zchar', r_zchar), ('defaultpad', r_defaultpad), ('placement', r_placement), ('defaults', r_defaults),
+SPEC_REWRITES = [('alias', r_alias), ('zchar', r_zchar), ('defaultpad', r_defaultpad), ('configpad', r_configpad), ('placement', r_placement), ('defaults', r_defaults),
                  ('expand', r_expand), ('inline-meta', r_inline_meta), ('dyn-spelling', r_dynspelling), ('docs', r_docs)]
 
 
@@ -151,6 +167,16 @@ def base_specs():
                      opts(), meta=meta))
     out.append(PSpec('c08_strkeys', [Packet('Root', [F('dyn', 'Kind', spelling='string'), F('match', 'P', key='Kind', pairs=[(['A', 'B'], 'Logon'), (['C'], 'Logout')])], root=True),
                                      logon, logout], opts(), meta=meta))
+    # one numeric MetaData entry types a plain and a repeated field (same packet and another packet); a fixed-string match key
+    # under options that configure the default padding
+    qmeta = [('Qty', ('basic', 'u32'), 'quantity'), ('Sym', ('fixed', 6, False), 'sym')]
+    out.append(PSpec('c08_meta_shared', [Packet('Root', [F('meta', 'Single', typ='Qty'), F('meta', 'Lots', typ='Qty', repeat=True), F('meta', 'Code', typ='Sym'),
+                                                        F('meta', 'Codes', typ='Sym', repeat=True), F('obj', 'Tail', typ='Leg')], root=True),
+                                         Packet('Leg', [F('meta', 'Fills', typ='Qty', repeat=True), F('meta', 'Last', typ='Qty')])], opts(), meta=qmeta))
+    for side, ch in (('true', "'0'"), (None, "'0'")):
+        out.append(PSpec('c08_fixedkey_%s_%s' % (side, 'zero' if ch else 'none'), [
+            Packet('Root', [F('fixed', 'MsgType', n=4), F('fixed', 'Note', n=6), F('match', 'Body', key='MsgType', pairs=[(['LO'], 'Logon'), (['QB', 'QA'], 'Logout')])], root=True),
+            logon, logout], opts(FixedStringPadFromLeft=side, FixedStringPadChar=ch), meta=meta))
     return out
 
 
